@@ -228,7 +228,7 @@ Definition allowed_root (d : decl) (r : string) : bool :=
   existsb (String.eqb r)
     (["::core"; "arbitrary_int"; "self"; "Self"; "bool"; "usize";
       "u8"; "u16"; "u32"; "u64"; "u128"; "i8"; "i16"; "i32"; "i64"; "i128";
-      "Result"; "Ok"; "Err"; "Default"; "assert!"; "unreachable!"; "stringify!";
+      "Result"; "Ok"; "Err"; "Default"; "assert!"; "debug_assert!"; "unreachable!"; "stringify!";
       "index"; "field_value"; "value"; "effective_index"; "temp"; "extracted_bits"; "MASK"; "CLEAR_MASK";
       "ZERO"; "f"; d_name d; partial_name d; uname (d_W d)]
      ++ custom_names d ++ default_idents d
